@@ -118,7 +118,8 @@ class Machine:
             elif op in (10, 11):
                 v = nxt(); pat = self._popP(); plug = self._popP()
                 node = R.ES(pat, v, plug) if op == 10 else R.SS(pat, v, plug)
-                if not R.wf_node(node): raise Reject('ill-formed subst')
+                if not R.wf_node(node):
+                    raise Reject('ill-formed subst (%s)' % ('target is not a metavariable chain' if pat[0] not in ('m', 'es', 'ss') else 'redundant'))
                 st.append(('P', node))
             elif op == 12: st.append(('T', R.PROP1))
             elif op == 13: st.append(('T', R.PROP2))
